@@ -30,8 +30,11 @@ impl NotificationHandler<DidOpenTextDocument> for DidOpenTextDocumentHandler {
 
 impl NotificationHandler<DidChangeTextDocument> for DidChangeTextDocumentHandler {
     fn handle(&self, ctx: &mut LspContext, params: DidChangeTextDocumentParams) -> MosResult<()> {
-        let text_changes = params.content_changes.first().unwrap();
-        register_document(ctx, &params.text_document.uri, &text_changes.text);
+        // The document is synchronised as full text: of several changes in one notification the last one is the
+        // document, and a notification without changes leaves it as it is
+        if let Some(text_changes) = params.content_changes.last() {
+            register_document(ctx, &params.text_document.uri, &text_changes.text);
+        }
         publish_diagnostics(ctx)?;
         Ok(())
     }
